@@ -89,9 +89,9 @@ func hasID(ids minersc.NodeIDs, id string) bool {
 type vcAgents struct {
 	w    *ledger.World
 	r    *ledger.Runner
-	dkg  map[string]*bls.DKG // miner id -> DKG object of the current DKG attempt
+	dkg  map[string]*bls.DKG  // miner id -> DKG object of the current DKG attempt
 	last map[string][2]string // miner id -> (function, raw input) of its last DKG transaction
-	mute int64               // bit i: miner i never takes part in the DKG
+	mute int64                // bit i: miner i never takes part in the DKG
 	// registration bookkeeping for the liveness bound
 	regDone int64 // round at which the last registration was accepted
 	oc      *oracle38
@@ -511,7 +511,8 @@ func opRound(r *ledger.Runner, st sim.Step) {
 }
 
 // opRegister registers world miner / sharder #I[1] through the real add_miner / add_sharder.
-//   I[0] 0 miner, 1 sharder; I[1] index; I[2] variant (0 honest; 1 sent by a stranger; 2 delegate wallet = own wallet)
+//
+//	I[0] 0 miner, 1 sharder; I[1] index; I[2] variant (0 honest; 1 sent by a stranger; 2 delegate wallet = own wallet)
 func opRegister(r *ledger.Runner, st sim.Step) {
 	a := agentsOf(r)
 	w := r.W
@@ -541,7 +542,8 @@ func opRegister(r *ledger.Runner, st sim.Step) {
 }
 
 // opStake locks a stake on miner / sharder #I[1] through the real addToDelegatePool.
-//   A staker account; I[0] 0 miner / 1 sharder; I[1] index; I[2] amount in units of 1 ZCN
+//
+//	A staker account; I[0] 0 miner / 1 sharder; I[1] index; I[2] amount in units of 1 ZCN
 func opStake(r *ledger.Runner, st sim.Step) {
 	a := agentsOf(r)
 	w := r.W
